@@ -176,14 +176,14 @@ type obs struct {
 	panicV  any
 	panicSt string
 	// per packet
-	wstep   []int           // step of the first Write, -1
-	cstep   []int           // step at which it was stored in the cache, -1
-	arrive  []time.Duration // arrival instant of the first Write
-	maxDelay time.Duration
-	endAt   time.Duration
-	ring    [2][3]int // head, tail, size after the pre-roll macro
-	ringOK  bool
-	ringEnd [2][3]int
+	wstep        []int           // step of the first Write, -1
+	cstep        []int           // step at which it was stored in the cache, -1
+	arrive       []time.Duration // arrival instant of the first Write
+	maxDelay     time.Duration
+	endAt        time.Duration
+	ring         [2][3]int // head, tail, size after the pre-roll macro
+	ringOK       bool
+	ringEnd      [2][3]int
 	openAfterEnd int
 }
 
